@@ -48,6 +48,9 @@ type Endpoint struct {
 	keep     bool // keep attempts
 	discard  map[string]bool
 	refusing atomic.Bool
+	last     map[string]string // per path: body of the last delivered request
+	dropDup  bool
+	redeliv  int64
 }
 
 // NewEndpoint starts the endpoint on a free port.
@@ -130,6 +133,27 @@ func (e *Endpoint) Discard(path string) {
 	}
 	e.discard[path] = true
 	e.mu.Unlock()
+}
+
+// DropRedeliveries (opt-in, used by C05/C20): a request whose body is identical
+// to the previously delivered request of the same path is answered 200 but NOT
+// recorded again. Webhooks are at-least-once: tile38 re-sends a message when it
+// did not get the 2xx answer within its 5 s client timeout although the
+// endpoint had received it (e.g. after a machine stall); every tile38 message
+// text is unique (nanosecond time, group, detect) and a failed message is the
+// first one to be re-sent, so a redelivery is always adjacent to its original.
+// Checks about duplicates proper (C10) leave this off.
+func (e *Endpoint) DropRedeliveries(on bool) {
+	e.mu.Lock()
+	e.dropDup = on
+	e.mu.Unlock()
+}
+
+// Redelivered counts the suppressed adjacent identical requests.
+func (e *Endpoint) Redelivered() int64 {
+	e.mu.Lock()
+	defer e.mu.Unlock()
+	return e.redeliv
 }
 
 // SetDefault sets the action for requests without a scripted action.
@@ -230,7 +254,15 @@ func (e *Endpoint) handle(w http.ResponseWriter, r *http.Request) {
 		e.attempts = append(e.attempts, Attempt{Path: path, Body: string(body), Action: act, At: time.Now()})
 	}
 	rel := e.release
-	if act == Accept && !e.discard[path] {
+	if act == Accept && !e.discard[path] && e.dropDup && len(body) > 0 && e.last[path] == string(body) {
+		e.redeliv++
+	} else if act == Accept && !e.discard[path] {
+		if e.dropDup {
+			if e.last == nil {
+				e.last = map[string]string{}
+			}
+			e.last[path] = string(body)
+		}
 		// recorded under the lock and before the 200 is written: the sender
 		// only sends the hook's next message after it has read this answer, so
 		// the stream order is the hook's send order.
